@@ -344,6 +344,28 @@ detach(struct bitstream bs)
 }
 
 
+/* A block found by the scanner is referenced both from unord_q and from its
+   retrieve job; whoever lets go last frees it.  Called when a retrieve job is
+   destroyed before it has finished retrieving. */
+static void
+release_unord_link(struct retr_blk *rb)
+{
+  struct unord_blk *ub = rb->unord_link;
+
+  if (ub == NULL)
+    return;
+
+  if (ub->complete) {
+    /* The parser has already removed it from unord_q and left it to us. */
+    free(ub);
+  }
+  else {
+    /* Still in unord_q; the parser frees complete blocks when it gets there. */
+    ub->complete = true;
+  }
+}
+
+
 /* Release any input blocks that are behind current base position. */
 static void
 advance(struct detached_bitstream bs)
@@ -375,6 +397,7 @@ advance(struct detached_bitstream bs)
     verif_event("x-advance-drop");
 #endif
 
+    release_unord_link(rb);
     decoder_free(&rb->ds);
     free(rb);
     work_units++;
@@ -463,6 +486,7 @@ do_parse(void)
     verif_event("x-eof-drop");
 #endif
 
+      release_unord_link(rb);
       decoder_free(&rb->ds);
       free(rb);
       work_units++;
@@ -578,6 +602,7 @@ do_retrieve(void)
   rb->curr_pos = detach(true_bitstream);
 
   if (parsing_done) {
+    release_unord_link(rb);
     decoder_free(&rb->ds);
     free(rb);
     work_units++;
@@ -595,6 +620,7 @@ do_retrieve(void)
     verif_event("x-retr-abort");
 #endif
     work_units++;
+    release_unord_link(rb);
     decoder_free(&rb->ds);
     free(rb);
     check_invariants();
@@ -619,6 +645,7 @@ do_retrieve(void)
          attached; release it like advance() does for queued jobs. */
       Trace(("Retriever was overtaken by the parser"));
       work_units++;
+      release_unord_link(rb);
       decoder_free(&rb->ds);
       free(rb);
       check_invariants();
